@@ -442,22 +442,24 @@ func (cs *clientStream) readLoop() error {
 			onReady(nil, md)
 		}
 
-		if done, err := errorIfDone(rpc); done {
+		done, doneErr := errorIfDone(rpc)
+
+		// The last message may share its envelope with the trailer: it is
+		// delivered before the stream ends.
+		if rpc.Body != nil && rpc.GetReset_() == nil {
+			select {
+			case <-cs.ctx.Done():
+				rErr = toStatusError(cs.ctx.Err())
+				return rErr
+			case cs.rCh <- rpc.Body:
+				// ok
+			}
+		}
+
+		if done {
 			trailer = rpc.GetTrailer()
-			rErr = err
-			return err
-		}
-
-		if rpc.Body == nil {
-			continue
-		}
-
-		select {
-		case <-cs.ctx.Done():
-			rErr = toStatusError(cs.ctx.Err())
-			return rErr
-		case cs.rCh <- rpc.Body:
-			// ok
+			rErr = doneErr
+			return doneErr
 		}
 	}
 }
